@@ -473,3 +473,18 @@ PROPS['C09'] = dict(
                  'the "no data race" clause is observed by the Go race detector during the recorded runs (TLC does not see memory accesses)',
                  'workloads hold at most 4 entries, so known finding F2 (needs >= 7 live entries) cannot occur and the sequential oracle is the plain LRU',
                  'invocation/response order from one shared atomic counter read immediately before/after each call'])
+
+
+# --------------------------------------------------------------------------
+# C10 stack, mlink.Queue, mlink.List + cursors, ring.Ring
+PROPS['C10'] = dict(
+    mc=[dict(module='ListMC', cfg=('ListMC_q.cfg', 'ListMC_t.cfg'), emit=True, workers=8),
+        dict(module='ListMC', cfg='ListMC_f7.cfg', expect_violation=True, workers=2),
+        dict(module='RingMC', cfg=('RingMC_q.cfg', 'RingMC_t.cfg'), emit=True, workers=8)],
+    variants=[dict(harness_args=['-kind', 'list'], trace=dict(module='ListTrace', cfg='ListTrace.cfg')),
+              dict(harness_args=['-kind', 'ring'], trace=dict(module='RingTrace', cfg='RingTrace.cfg')),
+              dict(harness_args=['-kind', 'stack'], trace=dict(module='DequeTrace', cfg='DequeTrace.cfg')),
+              dict(harness_args=['-kind', 'mqueue'], trace=dict(module='DequeTrace', cfg='DequeTrace.cfg'))],
+    assumptions=['TLC; ListSeq/RingSpec as transcription of the documented before/after pictures; ListMC/RingMC pointer-level models as transcription of list.go/ring.go',
+                 'a call that does not return within 2 s is recorded as a hang (st=3), which the specification never allows',
+                 'ring.At(+-len) is nil as the code and TestRing/Peek pin it; Join(r, r) is a no-op returning nil'])
